@@ -394,3 +394,57 @@ def constructor_helpers(ctx, init):
             if len(callers) == 1 and callers[0][0] is init:
                 out.append((h, c))
     return out
+
+
+class _SubstNames(ast.NodeTransformer):
+    def __init__(self, m):
+        self.m = m
+
+    def visit_Name(self, n):
+        if isinstance(n.ctx, ast.Load) and n.id in self.m:
+            import copy
+            return copy.deepcopy(self.m[n.id])
+        return n
+
+
+def inline_single_return(ctx, fn, call):
+    """The value of a call of a package helper whose body is one `return <expr>` (after an optional docstring), as an
+    expression over the caller's names: parameters replaced by the arguments, the receiver by the caller's receiver.
+    None when the call is not of that kind (several targets, other statements, names the helper binds itself)."""
+    import copy
+    if not isinstance(call, ast.Call) or any(isinstance(a, ast.Starred) for a in call.args) or any(k.arg is None for k in call.keywords):
+        return None
+    tg = targets_of(ctx, fn, call)
+    if len(tg) != 1 or tg[0].is_generator:
+        return None
+    T = tg[0]
+    body = [st for st in T.node.body if not (isinstance(st, ast.Expr) and isinstance(st.value, ast.Constant))]
+    if not body or not isinstance(body[-1], ast.Return) or body[-1].value is None:
+        return None
+    # before the return: plain `name = <expr>` definitions, each name defined once (read as abbreviations)
+    pre = body[:-1]
+    if not all(isinstance(st, ast.Assign) and len(st.targets) == 1 and isinstance(st.targets[0], ast.Name) for st in pre):
+        return None
+    locals_ = [st.targets[0].id for st in pre]
+    if len(set(locals_)) != len(locals_) or set(locals_) & set(T.params):
+        return None
+    expr = body[-1].value
+    if any(isinstance(x, (ast.Lambda, ast.ListComp, ast.SetComp, ast.DictComp, ast.GeneratorExp, ast.NamedExpr)) for st in body for x in ast.walk(st)):
+        return None
+    is_method = T.cls is not None and not T.is_static
+    bound = ctx.res.bind_args(T, call, is_method)
+    m = {}
+    for prm in T.params:
+        if is_method and prm == T.self_name:
+            if not (isinstance(call.func, ast.Attribute)):
+                return None
+            m[prm] = call.func.value
+        elif prm in bound and isinstance(bound[prm], ast.AST):
+            m[prm] = bound[prm]
+        else:
+            return None           # a default value: not followed
+    if set(bound) - set(T.params):
+        return None
+    for st in pre:
+        m[st.targets[0].id] = _SubstNames(dict(m)).visit(copy.deepcopy(st.value))
+    return ast.fix_missing_locations(_SubstNames(m).visit(copy.deepcopy(expr)))
